@@ -294,10 +294,15 @@ fn tokio_transfer(multi: bool, transport: Transport, plans: &[Plan], tag: u64) -
             Transport::Bound | Transport::FromFd => {
                 let path = sock_path(tag);
                 let _ = std::fs::remove_file(&path);
+                // With an inherited descriptor (socket activation) a client may well have connected
+                // before the process got round to building its listener: it waits in the backlog
+                // and must come out of the first accept().
+                let mut early: Option<StdUnixStream> = None;
                 let mut listener = if transport == Transport::Bound {
                     zlink_tokio::unix::bind(&path).map_err(|e| format!("bind: {e:?}"))?
                 } else {
                     let std_l = std::os::unix::net::UnixListener::bind(&path).map_err(|e| e.to_string())?;
+                    early = Some(StdUnixStream::connect(&path).map_err(|e| format!("early connect: {e}"))?);
                     let fd: OwnedFd = std_l.into();
                     let raw = std::os::fd::AsRawFd::as_raw_fd(&fd);
                     let l = zlink_tokio::unix::Listener::try_from(fd).map_err(|e| format!("try_from(fd): {e:?}"))?;
@@ -307,6 +312,23 @@ fn tokio_transfer(multi: bool, transport: Transport, plans: &[Plan], tag: u64) -
                     l
                 };
                 for _ in &plans {
+                    if let Some(early) = early.take() {
+                        early.set_nonblocking(true).map_err(|e| e.to_string())?;
+                        match tokio::time::timeout(Duration::from_secs(10), listener.accept()).await {
+                            Ok(server) => {
+                                let client = tokio::net::UnixStream::from_std(early).map_err(|e| e.to_string())?;
+                                pairs.push((Connection::new(zlink_tokio::unix::Stream::from(client)), server.map_err(|e| format!("accept: {e:?}"))?));
+                                continue;
+                            }
+                            Err(_) => {
+                                let mut b = [0u8; 1];
+                                return match std::io::Read::read(&mut &early, &mut b) {
+                                    Ok(0) => Err("a client that had connected before the listener was built from the inherited descriptor was hung up on (its connection was taken out of the backlog and dropped); accept() never returned it".to_string()),
+                                    _ => Err("accept() did not return the client waiting in the backlog within 10 s".to_string()),
+                                };
+                            }
+                        }
+                    }
                     let (client, server) = futures_util::join!(zlink_tokio::unix::connect(&path), listener.accept());
                     pairs.push((client.map_err(|e| format!("connect: {e:?}"))?, server.map_err(|e| format!("accept: {e:?}"))?));
                 }
@@ -356,10 +378,12 @@ fn smol_transfer(transport: Transport, plans: &[Plan], tag: u64) -> Result<(), S
             Transport::Bound | Transport::FromFd => {
                 let path = sock_path(tag);
                 let _ = std::fs::remove_file(&path);
+                let mut early: Option<StdUnixStream> = None;
                 let mut listener = if transport == Transport::Bound {
                     zlink_smol::unix::bind(&path).map_err(|e| format!("bind: {e:?}"))?
                 } else {
                     let std_l = std::os::unix::net::UnixListener::bind(&path).map_err(|e| e.to_string())?;
+                    early = Some(StdUnixStream::connect(&path).map_err(|e| format!("early connect: {e}"))?);
                     let fd: OwnedFd = std_l.into();
                     let raw = std::os::fd::AsRawFd::as_raw_fd(&fd);
                     let l = zlink_smol::unix::Listener::try_from(fd).map_err(|e| format!("try_from(fd): {e:?}"))?;
@@ -369,6 +393,28 @@ fn smol_transfer(transport: Transport, plans: &[Plan], tag: u64) -> Result<(), S
                     l
                 };
                 for _ in plans {
+                    if let Some(early) = early.take() {
+                        let accepted = smol::future::or(async { Some(listener.accept().await) }, async {
+                            smol::Timer::after(Duration::from_secs(10)).await;
+                            None
+                        })
+                        .await;
+                        match accepted {
+                            Some(server) => {
+                                let client = smol::Async::new(early).map_err(|e| e.to_string())?;
+                                pairs.push((Connection::new(zlink_smol::unix::Stream::from(client)), server.map_err(|e| format!("accept: {e:?}"))?));
+                                continue;
+                            }
+                            None => {
+                                early.set_nonblocking(true).map_err(|e| e.to_string())?;
+                                let mut b = [0u8; 1];
+                                return match std::io::Read::read(&mut &early, &mut b) {
+                                    Ok(0) => Err("a client that had connected before the listener was built from the inherited descriptor was hung up on (its connection was taken out of the backlog and dropped); accept() never returned it".to_string()),
+                                    _ => Err("accept() did not return the client waiting in the backlog within 10 s".to_string()),
+                                };
+                            }
+                        }
+                    }
                     let (client, server) = futures_util::join!(zlink_smol::unix::connect(&path), listener.accept());
                     pairs.push((client.map_err(|e| format!("connect: {e:?}"))?, server.map_err(|e| format!("accept: {e:?}"))?));
                 }
